@@ -23,7 +23,9 @@ while IFS=$'\t' read -r name prop expect; do
         printf '%s\t%s\t%s\tPATCH-DOES-NOT-APPLY\t-\t-\t-\tSKIPPED\n' "$name" "$prop" "$expect" >>"$OUT"
         continue
     fi
-    if (cd /repo && cargo test --workspace --no-fail-fast --offline >/tmp/mutant-baseline.log 2>&1); then
+    if [ -n "${SKIP_BASELINE:-}" ]; then
+        baseline="${SKIP_BASELINE}"
+    elif (cd /repo && cargo test --workspace --no-fail-fast --offline >/tmp/mutant-baseline.log 2>&1); then
         passed=$(grep -E "^test result: ok" /tmp/mutant-baseline.log | awk '{s+=$4} END {print s}')
         baseline="pass($passed)"
     else
